@@ -34,7 +34,7 @@ func c17LoopsRun(c *Ctx, r *Rng, n int) {
 		p := v2.Vec{X: r.R(-3, 3) * scale, Y: r.R(-3, 3) * scale}
 		b := sdf.NewBezier()
 		var spans [][]v2.Vec // oracle control polygons, in order
-		kind := i % 3
+		kind := i % 6
 		var desc string
 		polar := func(rad, th float64) v2.Vec { return v2.Vec{X: rad * math.Cos(th), Y: rad * math.Sin(th)} }
 		switch kind {
@@ -58,6 +58,32 @@ func c17LoopsRun(c *Ctx, r *Rng, n int) {
 			cp = append(cp, p)
 			spans = [][]v2.Vec{cp}
 			desc = fmt.Sprintf("closed loop through %v with %d mid points", p, k)
+		case 3, 4, 5: // an end point entered twice (a zero-length span) at the start, in the middle or at the end of a curve
+			a := p.Add(v2.Vec{X: -scale * r.R(1, 3), Y: scale * r.R(-0.5, 0.5)})
+			e := p.Add(v2.Vec{X: scale * r.R(1, 3), Y: scale * r.R(-0.5, 0.5)})
+			m1 := a.Add(p).MulScalar(0.5).Add(polar(scale*r.R(0.3, 2), r.R(0.3, 2.8)))
+			m2 := p.Add(e).MulScalar(0.5).Add(polar(scale*r.R(0.3, 2), r.R(0.3, 2.8)))
+			closed := r.P(0.3)
+			b.AddV2(a)
+			if kind == 3 {
+				b.AddV2(a)
+			}
+			b.AddV2(m1).Mid()
+			b.AddV2(p)
+			if kind == 4 {
+				b.AddV2(p)
+			}
+			b.AddV2(m2).Mid()
+			b.AddV2(e)
+			if kind == 5 {
+				b.AddV2(e)
+			}
+			spans = [][]v2.Vec{{a, m1, p}, {p, m2, e}}
+			if closed {
+				b.Close()
+				spans = append(spans, []v2.Vec{e, a})
+			}
+			desc = fmt.Sprintf("curve %v ~ %v ~ %v with the %s end point entered twice (closed=%v)", a, p, e, []string{"first", "middle", "last"}[kind-3], closed)
 		default: // a loop in the middle of an open curve: a - p =loop= p - e
 			a := p.Add(v2.Vec{X: -scale * r.R(1, 3), Y: scale * r.R(-0.5, 0.5)})
 			e := p.Add(v2.Vec{X: scale * r.R(1, 3), Y: scale * r.R(-0.5, 0.5)})
@@ -118,7 +144,9 @@ func c17LoopsRun(c *Ctx, r *Rng, n int) {
 			}
 			if bad == "" {
 				for k, cp := range spans {
-					if len(cp) >= 3 && interior[k] == 0 {
+					// only a span that ends where it starts is obliged to show up: an ordinary span may be flat enough for the
+					// adaptive sampler to emit nothing between its end points
+					if len(cp) >= 3 && cp[0] == cp[len(cp)-1] && interior[k] == 0 {
 						bad = fmt.Sprintf("span %d (degree %d loop, control polygon %v) contributed no vertex: the loop was dropped; polyline %v", k, len(cp)-1, cp, vs)
 					}
 				}
